@@ -45,7 +45,13 @@ CONSTANTS PeerRules,    \* peers that can be blocked (the rule is named like the
                         \* is also what net.ParseCIDR yields in loadRules and what ListBlockedSubnets reports
           Endpoints,    \* set of <<peer, ip>>: the remotes a connection can be attempted with ({} = none)
           Dirs,         \* subset of {"out", "in"}
-          Tpts,         \* transports, e.g. {"tcp", "quic"} (same consultations; kept for the binding)
+          Tpts,         \* transports: "tcp" "ws" (upgrader), "quic" "wt" "rtc" (own gating call sites)
+          Pres,         \* what the gated swarm already holds for the peer when an outbound attempt starts:
+                        \* subset of {"none", "relayed", "direct"} (admitted earlier, not subject to a later block)
+          Opts,         \* how the outbound attempt is made: DialPeer with "plain" | "force" (WithForceDirectDial) |
+                        \* "simc"/"sims" (WithSimultaneousConnect client/server) | "hpc"/"hps" (force + sim, what the
+                        \* hole punch service does); NewStream with "nodial" (WithNoDial) | "limited"
+                        \* (WithAllowLimitedConn)
           Faults,       \* subset of {"fail", "crash"}
           Exclusive     \* BOOLEAN: a call and an attempt never overlap, no crash inside an attempt
 
@@ -64,10 +70,41 @@ vars == <<mem, disk, up, call, att, must, op>>
 View == <<mem, disk, up, call, att, must>>
 
 NoCall == [kind |-> "none", r |-> "-", pc |-> "-", prev |-> <<>>]
-NoAtt == [dir |-> "-", peer |-> "-", ip |-> "-", tpt |-> "-", k |-> 0, cont |-> {}]
+NoAtt == [dir |-> "-", peer |-> "-", ip |-> "-", tpt |-> "-", pre |-> "-", opt |-> "-", k |-> 0, cont |-> {},
+          blk |-> {}]
 
-Stages(dir) == IF dir = "out" THEN <<"peerdial", "addrdial", "tdial", "secured", "upgraded">>
-               ELSE <<"accept", "secured", "upgraded">>
+Forced(opt) == opt \in {"force", "hpc", "hps"}
+SimServer(opt) == opt \in {"sims", "hps"}
+
+(* Swarm.dialPeer / NewStream before any gating: is a connection the swarm already holds good enough?   *)
+(* (bestAcceptableConnToPeer: a direct one always, a relayed one unless a direct dial is forced;         *)
+(* NewStream: WithNoDial never dials, a limited (relayed) connection is used only WithAllowLimitedConn)  *)
+Reuse(pre, opt) ==
+  CASE opt = "nodial"  -> pre = "direct"
+    [] opt = "limited" -> pre # "none"
+    [] OTHER           -> pre = "direct" \/ (pre = "relayed" /\ ~Forced(opt))
+NoConn(pre, opt) == opt = "nodial" /\ pre # "direct"
+
+(* The consultations of one attempt, in the order of the code.  "tdial" marks the call of the transport's *)
+(* Dial, "arrive" the moment a remote's connection reaches a listener (neither is a consultation),       *)
+(* "reuse"/"noconn" the exits that create no new connection.                                             *)
+(*   in : listener accept (gatedMaListener / QUIC, WebTransport, WebRTC listeners), InterceptSecured     *)
+(*        (DirInbound), InterceptUpgraded (Swarm.addConn)                                                *)
+(*   out: InterceptPeerDial (dialPeer), InterceptAddrDial (filterKnownUndialables), transport Dial, then *)
+(*        - ordinary dial: InterceptSecured(DirOutbound) in the upgrader / transport                     *)
+(*        - simultaneous connect as server over TCP/WS: the upgrader runs as DirInbound ->               *)
+(*          InterceptSecured(DirInbound)                                                                 *)
+(*        - simultaneous connect as server over QUIC = hole punch: the connection ARRIVES AT THE         *)
+(*          LISTENER (InterceptAccept, InterceptSecured(DirInbound)) and is handed to the waiting Dial   *)
+(*        and InterceptUpgraded                                                                          *)
+Stages(dir, tpt, pre, opt) ==
+  IF dir = "in" THEN <<"arrive", "accept", "secured_in", "upgraded">>
+  ELSE IF NoConn(pre, opt) THEN <<"noconn">>
+  ELSE IF Reuse(pre, opt) THEN <<"reuse">>
+  ELSE <<"peerdial", "addrdial", "tdial">> \o
+       (IF SimServer(opt) /\ tpt = "quic" THEN <<"arrive", "accept", "secured_in", "upgraded">>
+        ELSE IF SimServer(opt) /\ tpt \in {"tcp", "ws"} THEN <<"secured_in", "upgraded">>
+        ELSE <<"secured_out", "upgraded">>)
 
 IPBlocked(ip, M) == \E r \in IPRules \cap M : ip \in Match[r]
 
@@ -76,8 +113,8 @@ Gate(stage, dir, p, ip, M) ==
   CASE stage = "peerdial" -> p \notin M
     [] stage = "addrdial" -> ~IPBlocked(ip, M)
     [] stage = "accept"   -> ~IPBlocked(ip, M)
-    [] stage = "secured"  -> dir = "out" \/ p \notin M
-    [] OTHER              -> TRUE          \* "upgraded"; "tdial" is not a consultation
+    [] stage = "secured_in"  -> p \notin M
+    [] OTHER              -> TRUE          \* "secured_out", "upgraded"; "tdial" is not a consultation
 
 Matching(p, ip) == {r \in Rules : r = p \/ (r \in IPRules /\ ip \in Match[r])}
 
@@ -148,23 +185,37 @@ Reopen ==
 ----------------------------------------------------------------------------
 (* connection attempts *)
 
-AttStart(dir, p, ip, t) ==
+AttStart(dir, p, ip, t, pre, opt) ==
   /\ up /\ att = NoAtt
   /\ Exclusive => call = NoCall
-  /\ att' = [dir |-> dir, peer |-> p, ip |-> ip, tpt |-> t, k |-> 1, cont |-> Matching(p, ip)]
-  /\ op' = [name |-> "att_start", dir |-> dir, peer |-> p, ip |-> ip, tpt |-> t]
+  /\ dir = "in" => (pre = "none" /\ opt = "plain")        \* the listener side does not look at either
+  /\ att' = [dir |-> dir, peer |-> p, ip |-> ip, tpt |-> t, pre |-> pre, opt |-> opt, k |-> 1,
+             cont |-> Matching(p, ip),
+             \* the rules whose Block had RETURNED when the attempt began (and that stay in force)
+             blk |-> {r \in Matching(p, ip) : must[r] = "in"}]
+  /\ op' = [name |-> "att_start", dir |-> dir, peer |-> p, ip |-> ip, tpt |-> t, pre |-> pre, opt |-> opt]
   /\ UNCHANGED <<mem, disk, up, call, must>>
 
-(* One stage.  cont = the matching rules that were in mem at EVERY consultation so far.        *)
+(* One stage.  cont = the matching rules that were in mem at EVERY consultation of this connection so    *)
+(* far - for a connection that arrives at a listener (inbound, hole punch): in mem when it arrived and   *)
+(* at every consultation since; blk = the rules blocked (call returned) before the attempt began and in  *)
+(* mem ever since.                                                                                       *)
 AttStep ==
   /\ up /\ att.k >= 1
-  /\ LET sts == Stages(att.dir)
+  /\ LET sts == Stages(att.dir, att.tpt, att.pre, att.opt)
          st == sts[att.k]
+         b == att.blk \cap mem
          base == [name |-> "att_step", dir |-> att.dir, peer |-> att.peer, ip |-> att.ip, tpt |-> att.tpt,
-                  stage |-> st]
-     IN IF st = "tdial"
-        THEN /\ att' = [att EXCEPT !.k = @ + 1]
+                  pre |-> att.pre, opt |-> att.opt, stage |-> st, blk |-> b]
+     IN IF st \in {"reuse", "noconn"}
+        THEN /\ att' = NoAtt
+             /\ op' = base @@ [allow |-> TRUE, end |-> IF st = "reuse" THEN "reused" ELSE "noconn", cont |-> {}]
+        ELSE IF st = "tdial"
+        THEN /\ att' = [att EXCEPT !.k = @ + 1, !.blk = b]
              /\ op' = base @@ [allow |-> TRUE, end |-> "-", cont |-> att.cont]
+        ELSE IF st = "arrive"
+        THEN /\ att' = [att EXCEPT !.k = @ + 1, !.blk = b, !.cont = Matching(att.peer, att.ip) \cap mem]
+             /\ op' = base @@ [allow |-> TRUE, end |-> "-", cont |-> Matching(att.peer, att.ip) \cap mem]
         ELSE LET allow == Gate(st, att.dir, att.peer, att.ip, mem)
                  c == att.cont \cap mem
              IN IF ~allow
@@ -173,13 +224,13 @@ AttStep ==
                 ELSE IF att.k = Len(sts)
                 THEN /\ att' = NoAtt
                      /\ op' = base @@ [allow |-> TRUE, end |-> "admitted", cont |-> c]
-                ELSE /\ att' = [att EXCEPT !.k = @ + 1, !.cont = c]
+                ELSE /\ att' = [att EXCEPT !.k = @ + 1, !.cont = c, !.blk = b]
                      /\ op' = base @@ [allow |-> TRUE, end |-> "-", cont |-> c]
   /\ UNCHANGED <<mem, disk, up, call, must>>
 
 Next == \/ \E kind \in {"block", "unblock"}, r \in Rules : Begin(kind, r)
         \/ WriteOk \/ WriteFail \/ Finish \/ Crash \/ Reopen
-        \/ \E e \in Endpoints, d \in Dirs, t \in Tpts : AttStart(d, e[1], e[2], t)
+        \/ \E e \in Endpoints, d \in Dirs, t \in Tpts, pre \in Pres, o \in Opts : AttStart(d, e[1], e[2], t, pre, o)
         \/ AttStep
 
 Spec == Init /\ [][Next]_vars
@@ -189,7 +240,7 @@ Spec == Init /\ [][Next]_vars
 
 TypeOK == /\ mem \subseteq Rules /\ disk \subseteq Rules /\ up \in BOOLEAN
           /\ call.kind \in {"none", "block", "unblock"} /\ call.pc \in {"-", "atwrite", "written"}
-          /\ att.k \in 0..5 /\ att.cont \subseteq Rules
+          /\ att.k \in 0..7 /\ att.cont \subseteq Rules /\ att.blk \subseteq Rules
           /\ \A r \in Rules : must[r] \in {"in", "out", "never", "free"}
           /\ ~up => (call = NoCall /\ att = NoAtt /\ mem = {})
 
@@ -215,7 +266,7 @@ WriteBeforeMem ==
                     /\ \A r \in mem \ mem' : r \notin disk]_vars
 
 (* NeverAdmitted: a connection all of whose consultations happened while one matching rule was in *)
-(* mem is not admitted                                                                             *)
+(* mem - for a connection arriving at a listener: in mem from its arrival on - is not admitted     *)
 NeverAdmitted ==
   [][(op'.name = "att_step" /\ op'.end = "admitted") => op'.cont = {}]_vars
 
@@ -228,8 +279,26 @@ DialRefusedEarly ==
 ClosedAtAccept ==
   [][(op'.name = "att_step" /\ op'.stage = "accept" /\ IPBlocked(att.ip, mem)) => ~op'.allow]_vars
 ClosedAfterHandshake ==
-  [][(op'.name = "att_step" /\ op'.stage = "secured" /\ att.dir = "in" /\ att.peer \in mem)
-        => ~op'.allow]_vars
+  [][(op'.name = "att_step" /\ op'.stage = "secured_in" /\ att.peer \in mem) => ~op'.allow]_vars
+
+(* The statement's clause as such: once BlockPeer/BlockAddr/BlockSubnet has RETURNED (and the rule is  *)
+(* not unblocked), no NEW connection to or from a matching remote is admitted and no transport dial is  *)
+(* started - whatever the swarm already holds for the peer and however the attempt is made.             *)
+NoNewConnOnceBlocked ==
+  [][(op'.name = "att_step" /\ (op'.end = "admitted" \/ op'.stage = "tdial")) => op'.blk = {}]_vars
+
+(* every path that creates a connection passes the consultations the statement names: peer and address  *)
+(* before the transport dial, and - for whatever arrives at a listener - accept and the inbound check   *)
+(* after the handshake                                                                                   *)
+Has(sts, x) == \E i \in 1..Len(sts) : sts[i] = x
+Before(sts, x, y) == \E i, j \in 1..Len(sts) : i < j /\ sts[i] = x /\ sts[j] = y
+PathsGated ==
+  \A d \in Dirs, t \in Tpts, pre \in Pres, o \in Opts :
+    LET sts == Stages(d, t, pre, o) IN
+      /\ Has(sts, "tdial") => (Before(sts, "peerdial", "tdial") /\ Before(sts, "addrdial", "tdial"))
+      /\ Has(sts, "arrive") => (Before(sts, "arrive", "accept") /\ Before(sts, "accept", "secured_in"))
+      /\ Has(sts, "upgraded") => (Has(sts, "secured_in") \/ (Has(sts, "peerdial") /\ Has(sts, "addrdial")))
+      /\ d = "in" => (Has(sts, "accept") /\ Has(sts, "secured_in"))
 
 (* an attempt made while no matching rule is in mem at any consultation is admitted *)
 NotOverBlocking ==
@@ -238,6 +307,8 @@ NotOverBlocking ==
 (* vacuity probes: expected to be VIOLATED *)
 ReachMemDiskDiffer == ~(up /\ mem # disk)
 ReachFreeAfterReopen == ~(up /\ call = NoCall /\ \E r \in Rules : must[r] = "free")
+ReachHolePunchArrivalRefused ==   \* a block that lands between the transport dial and the arrival at the listener
+  [][~(op'.name = "att_step" /\ op'.end = "refused" /\ att.dir = "out" /\ op'.stage \in {"accept", "secured_in"})]_vars
 ReachAdmittedWhileSomeRule ==
   [][~(op'.name = "att_step" /\ op'.end = "admitted" /\ Matching(att.peer, att.ip) \cap mem # {})]_vars
 =============================================================================
